@@ -340,4 +340,78 @@ def fillFloat (p : Nat) : RawNd → RawNd
   | .nan => .nan
   | .num q => .num (roundFloat p q)
 
+/-! ### HEAD after 11b39c4: `GeoboxTiles` itself refuses chunk tuples that do not add up — always `ValueError` -/
+
+/-- `dstTilings` with the error class of /repo HEAD for the tuple-of-tuples form: `GeoboxTiles.__init__` raises
+`ValueError` ("Chunks add up to …, GeoBox shape is …") before `grid_intersect` or dask see the tiling; the empty tuple
+adds up to 0 and is refused the same way.  Negative tile sizes are unchanged (`badChunks`). -/
+def dstTilingsH (H W : Nat) (sy sx : List Nat) : ChunkArg → GRes (List Span × List Span)
+  | .var ys xs =>
+    if ys.sum = H ∧ xs.sum = W ∧ ys ≠ [] ∧ xs ≠ [] then .ok (chunksTiling ys, chunksTiling xs) else .error .value
+  | a => dstTilings H W sy sx a
+
+/-! ### float conversion over the whole range: subnormals, overflow to infinity -/
+
+/-- a floating-point nodata after conversion -/
+inductive FVal where
+  | nan
+  | inf (neg : Bool)
+  | fin (q : Rat)
+  deriving DecidableEq, Repr
+
+/-- IEEE round-to-nearest-even of a positive rational to a binary format with `p` significant bits and normal exponents
+`emin … emax`: below `2^emin` the spacing is the fixed subnormal `2^(emin-p+1)`; a result of `2^(emax+1)` or more is `+inf` -/
+def roundPosIEEE (p : Nat) (emin emax : Int) (q : Rat) : Option Rat :=
+  let r := if q < pow2 emin then (roundHalfEven (q / pow2 (emin - (p : Int) + 1)) : Rat) * pow2 (emin - (p : Int) + 1)
+           else roundPos p q
+  if pow2 (emax + 1) ≤ r then none else some r
+
+/-- `np.dtype(float type).type(v)` / GDAL's double → float conversion of a nodata -/
+def roundIEEE (p : Nat) (emin emax : Int) : RawNd → FVal
+  | .nan => .nan
+  | .num q =>
+    if q = 0 then .fin 0
+    else if 0 < q then (match roundPosIEEE p emin emax q with | some r => .fin r | none => .inf false)
+    else (match roundPosIEEE p emin emax (-q) with | some r => .fin (-r) | none => .inf true)
+
+/-! ### `_xr_reproject_ds`: `xr_reproject(Dataset)` -/
+
+/-- one data variable of a Dataset: georegistered (`dv.odc.geobox is not None`; its own dtype kind, nodata attribute,
+dask chunks and pixels) or not (passed through) -/
+inductive DsVar where
+  | geo (kind : DKind) (attrNd : Option Val) (sy sx : List Nat) (src : Img)
+  | plain (data : Img)
+
+/-- what all variables of one `xr_reproject(ds, how, dst_nodata=…, src_nodata=…, chunks=…)` call share: the two grids
+(the variables of a Dataset share its spatial coordinates) and the keywords, handed unchanged to every variable -/
+structure DsShared where
+  srcH : Nat
+  srcW : Nat
+  S : Aff
+  dstH : Nat
+  dstW : Nat
+  D : Aff
+  kwSrcNd : Option Val
+  dstNd : Option Val
+  chunks : ChunkArg
+
+/-- the `_xr_reproject_da` call `_maybe_reproject` makes for a georegistered variable -/
+def dsArgs (sh : DsShared) (kind : DKind) (attrNd : Option Val) (sy sx : List Nat) : XrArgs :=
+  { kind := kind, srcH := sh.srcH, srcW := sh.srcW, S := sh.S, dstH := sh.dstH, dstW := sh.dstW, D := sh.D, sy := sy, sx := sx,
+    attrNd := attrNd, kwSrcNd := sh.kwSrcNd, dstNd := sh.dstNd, chunks := sh.chunks }
+
+/-- `_maybe_reproject(dv)`, dask-backed; `deps` = the dependency table for this variable's chunking -/
+def dsVarDask (sh : DsShared) (G : Gdal) (deps : List Nat → List Nat → List (TIdx × List TIdx)) : DsVar → GRes Img
+  | .geo k attr sy sx src => xrDask (dsArgs sh k attr sy sx) G (deps sy sx) src
+  | .plain d => .ok d
+
+/-- `_xr_reproject_ds`: `{name: _maybe_reproject(dv) for name, dv in src.data_vars.items()}` — same names, same order -/
+def xrReprojectDs (sh : DsShared) (G : Gdal) (deps : List Nat → List Nat → List (TIdx × List TIdx))
+    (ds : List (String × DsVar)) : GRes (List (String × Img)) :=
+  ds.mapM fun nv => (dsVarDask sh G deps nv.2).map fun r => (nv.1, r)
+
+/-- which branch `_maybe_reproject` takes per variable (for the correspondence) -/
+def dsPlan (ds : List (String × Bool)) : List (String × String) :=
+  ds.map fun nv => (nv.1, if nv.2 then "reproject" else "pass")
+
 end OdcGeo.C13
